@@ -1,6 +1,7 @@
 use crate::analysis::serde_parser::SerdeParser;
 use crate::analysis::type_resolver::TypeResolver;
 use crate::models::{CommandInfo, ParameterInfo};
+use serde_rename_rule::RenameRule;
 use std::path::Path;
 use syn::ext::IdentExt;
 use syn::{File as SynFile, FnArg, ItemFn, PatType, ReturnType, Type};
@@ -51,6 +52,38 @@ impl CommandParser {
         })
     }
 
+    /// Read `rename_all = ".."` from the arguments of the command attribute itself
+    fn parse_command_rename_all(&self, func: &ItemFn) -> Option<RenameRule> {
+        let mut rename_all = None;
+        for attr in &func.attrs {
+            let path = attr.path();
+            let is_command_attr = path.is_ident("command")
+                || (path.segments.len() == 2
+                    && path.segments[0].ident == "tauri"
+                    && path.segments[1].ident == "command");
+            if !is_command_attr || !matches!(attr.meta, syn::Meta::List(_)) {
+                continue;
+            }
+            // Other arguments (async, root = "..") are skipped
+            let _ = attr.parse_nested_meta(|meta| {
+                if meta.input.peek(syn::Token![=]) {
+                    let value: syn::Expr = meta.value()?.parse()?;
+                    if meta.path.is_ident("rename_all") {
+                        if let syn::Expr::Lit(syn::ExprLit {
+                            lit: syn::Lit::Str(text),
+                            ..
+                        }) = &value
+                        {
+                            rename_all = RenameRule::from_rename_all_str(&text.value()).ok();
+                        }
+                    }
+                }
+                Ok(())
+            });
+        }
+        rename_all
+    }
+
     /// Extract command information from a function
     fn extract_command_info(
         &self,
@@ -69,11 +102,12 @@ impl CommandParser {
         // Get line number from the function's span
         let line_number = func.sig.ident.span().start().line;
 
-        // Parse serde rename_all attribute from function attributes
-        let serde_rename_all = self
+        // The argument case the command macro was given, #[tauri::command(rename_all = "snake_case")],
+        // is the one Tauri deserializes with; a serde rename_all on the function comes second
+        let serde_rename_all = self.parse_command_rename_all(func).or(self
             .serde_parser
             .parse_struct_serde_attrs(&func.attrs)
-            .rename_all;
+            .rename_all);
 
         Some(CommandInfo {
             name,
